@@ -331,6 +331,12 @@ class Scheduler:
         if task.cancel_at_line is not None and task.lines == task.cancel_at_line:
             task.cancel_at_line = None
             self.on_event("cancel_line", task.tid, task.lines)
+            exc = getattr(task, "cancel_exc", None)
+            if exc is not None:
+                # a failing allocation / exhausted stack at this line: an ordinary Exception, which library code may
+                # catch (SimCancel, like KeyboardInterrupt, passes through `except Exception`)
+                task.cancel_exc = None
+                raise exc("injected at line %d" % task.lines)
             raise SimCancel("line %d" % task.lines)
         others = [t for t in self._runnable() if t != task.tid]
         nxt = self.chooser.at_line(task.tid, task.dp, others, frame.f_code.co_filename)
